@@ -308,7 +308,7 @@ func monitoredParse(data []byte) parseOutcome {
 }
 
 func saveInput(res *verifrt.Result, tag string, data []byte) string {
-	dir := filepath.Join(os.Getenv("VERIF_DIR"), "replays", "inputs")
+	dir := filepath.Join(os.Getenv("VERIF_REPLAY_DIR"), "inputs")
 	os.MkdirAll(dir, 0o755)
 	p := filepath.Join(dir, fmt.Sprintf("%s-%s.bin", tag, verifrt.Hash(data)))
 	os.WriteFile(p, data, 0o644)
